@@ -223,6 +223,23 @@ CLAIMS = {
 NA = {}
 
 
+def extra_rules(prop: str, base: str) -> str:
+    """Rules registered for the property that the hand-written claim text does not name yet (added after the later seeding rounds):
+    listed from the evidence file of the last run, so that the claim names everything the check decides."""
+    import re
+
+    ev = os.path.join(HERE, "evidence", f"{prop}.json")
+    if not os.path.exists(ev):
+        return ""
+    rules = json.load(open(ev))["coverage"]["per_rule"]
+    named = set(re.findall(r"R\d\d\.[\w\-]+", base))
+    more = [r for r in rules if r["rule"] not in named and not any(r["rule"].startswith(n + "-") or n.startswith(r["rule"]) for n in named)]
+    if not more:
+        return ""
+    return " Further structural clauses decided by rules added after the third and fourth seeding rounds (each a necessary condition, see DESIGN.md 0.6c / 0.6d): " + "; ".join(
+        f"({r['rule']}) {r['title']}" for r in more) + "."
+
+
 def main() -> None:
     props = [json.loads(l)["id"] for l in open(os.path.join(HERE, "properties.jsonl"))]
     checks = []
@@ -237,7 +254,7 @@ def main() -> None:
                 "evidence_file": f"/verif/evidence/{p}.json",
                 "replay_cmd_template": "/venv/bin/python -m sa.run --replay {path}",
                 "engine": "sa",
-                "level_claimed": {"category": "other", "text": c["text"], "design_ref": c["design_ref"]},
+                "level_claimed": {"category": "other", "text": c["text"] + extra_rules(p, c["text"]), "design_ref": c["design_ref"] + "; DESIGN.md sections 0.4b, 0.6c, 0.6d"},
                 "level_note": c.get("note", BASE_NOTE),
                 "technique": c["technique"],
             })
